@@ -1,4 +1,6 @@
 """C01 - parent/child/ancestor/descendant queries equal the (transitive closure of the) is_a edges."""
+import json
+
 import gen_graph as G
 import graphcorr as GC
 
@@ -57,7 +59,22 @@ def gen(chk):
     return graphs, n_exh
 
 
+def scale_probes(chk):
+    """beyond the model's reach: more edges than a 16-bit offset can count, on a few hundred nodes; every probed query is
+    compared with the closure computed from the edge list (the property's own oracle, no model)"""
+    cases = [{'kind': 'scale', 'n': 420, 'band': 200, 'p': 0.25, 'seed': chk.rng.randrange(10 ** 6), 'factory': f, 'probes': 60}
+             for f in (['idx'] if chk.tier != 'thorough' else ['idx', 'inc'])]
+    for c, o in zip(cases, chk.run_impl('graph', {'cases': cases}, timeout=900)['cases']):
+        chk.count('scale-probe')
+        chk.extra.setdefault('scale_probes', []).append({'factory': c['factory'], 'nodes': o.get('nodes'), 'edges': o.get('edges'), 'mismatches': o.get('n_mismatches', o.get('crash'))})
+        if o.get('n_mismatches') or 'crash' in o:
+            chk.report_violation('C01:scale', {'case': c, 'impl': o, 'theorem': 'C01_queries_are_closure',
+                                               'explanation': 'on a graph with more edges than a 16-bit offset can count the queries differ from the transitive closure of the edge list (compared directly, no model); the graph is rebuilt from the seed'},
+                                 what=f'C01:scale: factory={c["factory"]} {o.get("nodes")} nodes / {o.get("edges")} edges: {json.dumps(o.get("mismatches", o.get("crash")))[:300]}')
+
+
 def run(chk):
+    scale_probes(chk)
     graphs, n_exh = gen(chk)
     cases = []
     for fam, es in graphs:
